@@ -85,6 +85,41 @@ def main():
         except Exception as e:
             fails.append({'check': 'a results object is not changed by later evaluations of the same BIOGEME object', 'algorithm': algo,
                           'got': f'{type(e).__name__}: {str(e)[:200]}'})
+    # C: the outcome of the optimisation REPORTED with the estimates (convergence flag, termination message) is the one of the run on
+    #    the estimation data, whatever the bootstrap re-estimations did afterwards: a run stopped by its iteration limit far from the
+    #    optimum reports no convergence with or without bootstrapping
+    for algo in ('simple_bounds',):
+        n += 1
+        try:
+            def run(boot, start, limit):
+                np.random.seed(1)
+                d = db.Database('c07stab', df.copy())
+                b1, b2 = Beta('b1', start[0], None, None, 0), Beta('b2', start[1], None, None, 0)       # far starting point
+                v = {1: b1 * Variable('x1'), 2: b2 * Variable('x2'), 3: 0}
+                p = Parameters()
+                p.set_value('optimization_algorithm', algo, section='Estimation')
+                p.set_value('save_iterations', False, section='Estimation')
+                p.set_value('max_iterations', limit, section='SimpleBounds')
+                if boot:
+                    p.set_value('bootstrap_samples', boot, section='Estimation')
+                bg = BIOGEME(d, models.loglogit(v, None, Variable('ch')), parameters=p)
+                bg.modelName = 'c07stab'
+                bg.generate_html = bg.generate_pickle = False
+                res = bg.estimate(run_bootstrap=bool(boot))
+                g = np.array(bg.calculate_likelihood_and_derivatives([float(x) for x in res.data.betaValues], scaled=False).gradient, dtype=float)
+                return bool(res.data.convergence), float(np.max(np.abs(g)))
+            # iteration limits around the number of iterations the run needs: the run on the estimation data stops early while
+            # re-estimations started from its last iterate may converge
+            for start, limit in (((8.0, -9.0), 5), ((4.0, -4.0), 3), ((4.0, -4.0), 4), ((8.0, -9.0), 6)):
+                plain, with_boot = run(0, start, limit), run(5, start, limit)
+                if plain[0] != with_boot[0] or (with_boot[0] and with_boot[1] > 1.0):
+                    fails.append({'check': 'reported convergence is that of the run on the estimation data (bootstrap re-estimations do not overwrite it)',
+                                  'algorithm': algo, 'start': list(start), 'max_iterations': limit,
+                                  'without_bootstrap': {'convergence': plain[0], 'max_abs_gradient': plain[1]},
+                                  'with_bootstrap': {'convergence': with_boot[0], 'max_abs_gradient': with_boot[1]}})
+        except Exception as e:
+            fails.append({'check': 'reported convergence is that of the run on the estimation data (bootstrap re-estimations do not overwrite it)',
+                          'algorithm': algo, 'got': f'{type(e).__name__}: {str(e)[:200]}'})
     print(json.dumps({'cases': n, 'failures': fails}))
     return 1 if fails else 0
 
